@@ -10,6 +10,10 @@
 //	stack    the production wiring with scripted backends: sequential histories of status writes, requests
 //	         hitting failing backends (proxy-detected failure -> offline), recoveries, interleaved with requests;
 //	         every backend contact is checked against the repository's status when the request was sent
+//	life     ONE long-lived production stack per case, taken through a long generated history: requests held by the
+//	         endpoint they reached (their candidate snapshot ages), released with a reset / close / answer, real
+//	         health-check rounds (RunHealthCheck, the scheduler's ticker body), failing probes, status writes, breaks,
+//	         plain requests of different shapes — every contact judged against what was known when ITS request arrived
 //	race     concurrent status writers + request senders on one stack; interval check per contact
 package main
 
@@ -26,6 +30,8 @@ import (
 
 	"github.com/thushan/olla/internal/adapter/balancer"
 	"github.com/thushan/olla/internal/adapter/discovery"
+	"github.com/thushan/olla/internal/adapter/health"
+	"github.com/thushan/olla/internal/adapter/proxy/olla"
 	"github.com/thushan/olla/internal/adapter/registry/profile"
 	"github.com/thushan/olla/internal/adapter/stats"
 	"github.com/thushan/olla/internal/config"
@@ -501,6 +507,518 @@ func cornerStacks() []*stackCase {
 	return out
 }
 
+// ---------------------------------------------------------------- life
+//
+// One LONG-LIVED production stack taken through a generated history in which requests of different shapes are
+// in flight WHILE the status writers run: a request can be held by the endpoint it reached (its candidate snapshot
+// ages meanwhile), released with a connection reset (the system fails over and records the failure), a clean
+// close or an answer; in between: real health-check rounds (the production checker's RunHealthCheck, and the
+// scheduler's ticker body for the endpoints that are due), health probes that fail, direct status writes, backends
+// that break and mend, plain requests.  Every step is driven from one goroutine and waited for by event (a held
+// request has arrived at a backend / the client has its response), so the order of the history is known.
+
+type lop struct {
+	Op   string   `json:"op"` // set | break | mend | sick | well | check | tick | sweep | req | hold | release
+	E    string   `json:"e,omitempty"`
+	S    string   `json:"s,omitempty"`
+	Kind string   `json:"kind,omitempty"` // break: reset0 | close0
+	K    int      `json:"k,omitempty"`    // release: which of the held requests (mod their number)
+	How  string   `json:"how,omitempty"`  // release: fail (RST before any answer) | close (EOF before any answer) | ok
+	Due  []string `json:"due,omitempty"`  // tick: the endpoints whose next check time has come
+	Path int      `json:"path,omitempty"` // req / hold: which route
+	Pad  int      `json:"pad,omitempty"`  // req / hold: padding of the body
+	CT   int      `json:"ct,omitempty"`   // req / hold: which content type
+}
+
+type lstep struct {
+	lop                         // the op as it was carried out (a release of nothing, a hold above the limit: op "skip")
+	Before    map[string]string `json:"before"`
+	After     map[string]string `json:"after"`
+	Rid       int               `json:"rid,omitempty"`
+	Contacted []string          `json:"contacted,omitempty"` // req: backends that received it, in order
+	Status    int               `json:"status,omitempty"`    // the client's status, when the request completed in this step
+	Done      bool              `json:"done,omitempty"`      // the request completed in this step
+	At        string            `json:"at,omitempty"`        // hold: the endpoint that holds it now
+	From      string            `json:"from,omitempty"`      // release: the endpoint that held it
+	Next      string            `json:"next,omitempty"`      // release: the endpoint that holds it now (failed over)
+	Results   map[string]string `json:"results,omitempty"`   // check / tick: what the round stored for each endpoint it checked
+	Mended    []string          `json:"mended,omitempty"`    // backends mended by the runner before they answered in this step
+	Healed    []string          `json:"healed,omitempty"`    // probes healed by the runner before this round
+}
+
+type lifeCase struct {
+	Engine   string   `json:"engine"`
+	Balancer string   `json:"balancer"`
+	Names    []string `json:"names"`
+	Prios    []int    `json:"prios"`
+	Strategy string   `json:"strategy,omitempty"`
+	Ops      []lop    `json:"ops"`
+}
+
+var lifePaths = []string{"/olla/proxy/v1/chat/completions", "/olla/openai/v1/chat/completions"}
+var lifeCTs = []string{"application/json", "application/json; charset=utf-8"}
+
+type lifeEv struct {
+	at   string
+	gate chan stack.Behaviour
+	resp *stack.Resp
+}
+
+type lifeHeld struct {
+	rid  int
+	at   string
+	gate chan stack.Behaviour
+	ev   chan lifeEv
+}
+
+// settleDeadline: how long one step may take to show its effect (loaded machine) before the history is given up.
+const settleDeadline = 40 * time.Second
+
+func ridOf(body []byte) int {
+	a := strings.Index(string(body[:min(len(body), 400)]), "#rq-")
+	if a < 0 {
+		return -1
+	}
+	var id int
+	if _, err := fmt.Sscanf(string(body[a:min(len(body), a+40)]), "#rq-%d#", &id); err != nil {
+		return -1
+	}
+	return id
+}
+
+func runLife(sc *lifeCase) map[string]any {
+	backends := make([]*stack.Backend, len(sc.Names))
+	eps := make([]stack.EP, len(sc.Names))
+	byName := map[string]*stack.Backend{}
+	for i, n := range sc.Names {
+		backends[i] = stack.NewBackend(n)
+		backends[i].KeepBodies = true
+		byName[n] = backends[i]
+		eps[i] = stack.EP{Name: n, Type: "openai", Priority: sc.Prios[i], Backend: backends[i]}
+	}
+	defer func() {
+		for _, b := range backends {
+			b.Close()
+		}
+	}()
+	s, err := stack.Start(stack.Opts{Vary: stack.VaryForJSON("c03.life", sc), Engine: sc.Engine, Balancer: sc.Balancer, Profile: "auto", EPs: eps, Mutate: func(cfg *config.Config) {
+		switch sc.Strategy {
+		case "discovery-all":
+			cfg.ModelRegistry.RoutingStrategy.Type = "discovery"
+			cfg.ModelRegistry.RoutingStrategy.Options.DiscoveryRefreshOnMiss = true
+			cfg.ModelRegistry.RoutingStrategy.Options.FallbackBehavior = "all"
+		case "optimistic-all":
+			cfg.ModelRegistry.RoutingStrategy.Type = "optimistic"
+			cfg.ModelRegistry.RoutingStrategy.Options.FallbackBehavior = "all"
+		}
+	}})
+	if err != nil {
+		return map[string]any{"start_err": err.Error()}
+	}
+	defer s.Stop()
+	hc, err := s.Disc.GetHealthChecker()
+	if err != nil {
+		return map[string]any{"start_err": "no health checker: " + err.Error()}
+	}
+	for _, n := range sc.Names {
+		s.SetStatus(n, domain.StatusHealthy)
+	}
+
+	var mu sync.Mutex
+	mode := map[int]string{}       // rid -> run | hold
+	evs := map[int]chan lifeEv{}   // rid -> its events
+	contacts := map[int][]string{} // rid -> backends reached, in order
+	broken := map[string]string{}  // backend -> reset0 | close0 (what a request that is not held gets)
+	// consecutive failed round trips per backend: the olla engine opens a per-endpoint circuit breaker at 5 (C04/C08
+	// territory); the runner turns the 4th failure in a row into an answer, and says so in the step
+	cf := map[string]int{}
+	var mended []string
+	for _, b := range backends {
+		name := b.Name
+		b.SetScript(func(_ int, seen *stack.Seen) stack.Behaviour {
+			okB := scen.OkBeh(name, 200, 20, false, "application/json")
+			rid := ridOf(seen.Body)
+			if rid < 0 { // not one of the history's requests (a model listing after a recovery, …)
+				return okB
+			}
+			mu.Lock()
+			contacts[rid] = append(contacts[rid], name)
+			if mode[rid] == "hold" {
+				ev := evs[rid]
+				mu.Unlock()
+				gate := make(chan stack.Behaviour, 1)
+				ev <- lifeEv{at: name, gate: gate}
+				return <-gate
+			}
+			defer mu.Unlock()
+			if k, isBroken := broken[name]; isBroken {
+				if cf[name] < 3 {
+					cf[name]++
+					return stack.Behaviour{Kind: k}
+				}
+				delete(broken, name)
+				mended = append(mended, name)
+			}
+			cf[name] = 0
+			return okB
+		})
+	}
+	probeHits := func() int64 {
+		var t int64
+		for _, b := range backends {
+			t += b.HealthHits()
+		}
+		return t
+	}
+	// the scheduler's own ticker (30 s) is kept out of the history: nothing becomes due unless a `tick` says so
+	postpone := func() {
+		all, _ := s.Repo.GetAll(context.Background())
+		for _, e := range all {
+			if time.Until(e.NextCheckTime) < 5*time.Minute {
+				cp := *e
+				cp.NextCheckTime = time.Now().Add(10 * time.Minute)
+				s.Repo.UpdateEndpoint(context.Background(), &cp)
+			}
+		}
+	}
+	sickNow := map[string]bool{}
+	sickRounds := map[string]int{} // consecutive failed probes: the health client has its own breaker at 3
+	var held []*lifeHeld
+	var steps []lstep
+	unsettled, disturbed := false, false
+	rid := 0
+	send := func(o lop, m string) chan lifeEv {
+		rid++
+		ch := make(chan lifeEv, 16)
+		mu.Lock()
+		mode[rid], evs[rid] = m, ch
+		mu.Unlock()
+		content := fmt.Sprintf("#rq-%d# %s", rid, strings.Repeat("x", o.Pad))
+		body := fmt.Sprintf(`{"messages":[{"role":"user","content":%q}]}`, content)
+		if sc.Strategy != "" {
+			body = fmt.Sprintf(`{"model":"zz-nobody-lists-%d","messages":[{"role":"user","content":%q}]}`, rid%2, content)
+		}
+		raw := stack.Request("POST", lifePaths[o.Path%len(lifePaths)], s.Addr, [][2]string{{"Content-Type", lifeCTs[o.CT%len(lifeCTs)]}}, []byte(body), false)
+		go func() { ch <- lifeEv{resp: stack.Do(s.Addr, raw, 3*settleDeadline)} }()
+		return ch
+	}
+	wait := func(ch chan lifeEv) (lifeEv, bool) {
+		select {
+		case ev := <-ch:
+			return ev, true
+		case <-time.After(settleDeadline):
+			return lifeEv{}, false
+		}
+	}
+	takeMended := func() []string {
+		mu.Lock()
+		defer mu.Unlock()
+		m := mended
+		mended = nil
+		return m
+	}
+	release := func(h *lifeHeld, how string) {
+		mu.Lock()
+		switch how {
+		case "fail", "close":
+			cf[h.at]++
+		default:
+			cf[h.at] = 0
+		}
+		mu.Unlock()
+		switch how {
+		case "fail":
+			h.gate <- stack.Behaviour{Kind: "reset0"}
+		case "close":
+			h.gate <- stack.Behaviour{Kind: "close0"}
+		default:
+			h.gate <- scen.OkBeh(h.at, 200, 20, false, "application/json")
+		}
+	}
+	runOp := func(o lop) {
+		st := lstep{lop: o, Before: s.Statuses()}
+		hits0 := probeHits()
+		switch o.Op {
+		case "set":
+			s.SetStatus(o.E, domain.EndpointStatus(o.S))
+		case "break":
+			mu.Lock()
+			broken[o.E] = o.Kind
+			mu.Unlock()
+		case "mend":
+			mu.Lock()
+			delete(broken, o.E)
+			mu.Unlock()
+		case "sick":
+			sickNow[o.E] = true
+			atomic.StoreInt32(&byName[o.E].HealthStatus, 503)
+		case "well":
+			delete(sickNow, o.E)
+			atomic.StoreInt32(&byName[o.E].HealthStatus, 0)
+		case "sweep": // six idle minutes pass for the engine's per-endpoint pools, then its periodic clean-up pass runs (olla)
+			if os, ok := s.Proxy.(*olla.Service); ok {
+				olla.VerifCleanupPassAfter(os, 6*time.Minute)
+			} else {
+				st.Op = "skip"
+			}
+		case "check", "tick":
+			checked := sc.Names
+			if o.Op == "tick" {
+				checked = o.Due
+			}
+			for _, n := range checked {
+				if sickNow[n] && sickRounds[n] >= 2 {
+					delete(sickNow, n)
+					atomic.StoreInt32(&byName[n].HealthStatus, 0)
+					st.Healed = append(st.Healed, n)
+				}
+			}
+			ctx, cancel := context.WithTimeout(context.Background(), settleDeadline)
+			if o.Op == "check" {
+				_ = hc.RunHealthCheck(ctx, false)
+			} else {
+				for _, n := range o.Due {
+					if e := s.Endpoint(n); e != nil {
+						cp := *e
+						cp.NextCheckTime = time.Now().Add(-time.Second)
+						s.Repo.UpdateEndpoint(context.Background(), &cp)
+					}
+				}
+				health.VerifTickerRound(hc, ctx)
+			}
+			if ctx.Err() != nil {
+				unsettled = true
+			}
+			cancel()
+			now := s.Statuses()
+			st.Results = map[string]string{}
+			for _, n := range checked {
+				st.Results[n] = now[n]
+				if sickNow[n] {
+					sickRounds[n]++
+				} else {
+					sickRounds[n] = 0
+				}
+			}
+			hits0 = probeHits()
+		case "req":
+			ch := send(o, "run")
+			st.Rid = rid
+			ev, ok := wait(ch)
+			if !ok || ev.resp == nil {
+				unsettled = true
+				break
+			}
+			st.Status, st.Done = ev.resp.Status, true
+			mu.Lock()
+			st.Contacted = append([]string{}, contacts[rid]...)
+			mu.Unlock()
+		case "hold":
+			if len(held) >= 3 {
+				st.Op = "skip"
+				break
+			}
+			ch := send(o, "hold")
+			st.Rid = rid
+			ev, ok := wait(ch)
+			switch {
+			case !ok:
+				unsettled = true
+			case ev.resp != nil:
+				st.Status, st.Done = ev.resp.Status, true
+			default:
+				st.At = ev.at
+				held = append(held, &lifeHeld{rid: rid, at: ev.at, gate: ev.gate, ev: ch})
+			}
+		case "release":
+			if len(held) == 0 {
+				st.Op = "skip"
+				break
+			}
+			i := o.K % len(held)
+			h := held[i]
+			mu.Lock()
+			if st.How != "ok" && cf[h.at] >= 3 {
+				st.How = "ok"
+			}
+			mu.Unlock()
+			st.Rid, st.From = h.rid, h.at
+			release(h, st.How)
+			ev, ok := wait(h.ev)
+			switch {
+			case !ok:
+				unsettled = true
+				held = append(held[:i], held[i+1:]...)
+			case ev.resp != nil:
+				st.Status, st.Done = ev.resp.Status, true
+				held = append(held[:i], held[i+1:]...)
+			default:
+				st.Next = ev.at
+				h.at, h.gate = ev.at, ev.gate
+			}
+		}
+		st.Mended = takeMended()
+		st.After = quiesceStatuses(s)
+		if probeHits() != hits0 { // a check nobody asked for ran (the scheduler's own ticker): the history is no longer known
+			disturbed = true
+		}
+		postpone()
+		steps = append(steps, st)
+	}
+	for _, o := range sc.Ops {
+		runOp(o)
+		if unsettled || disturbed {
+			break
+		}
+	}
+	// whoever is still held is answered
+	for len(held) > 0 && !unsettled && !disturbed {
+		runOp(lop{Op: "release", K: 0, How: "ok"})
+	}
+	for _, h := range held { // given up: let the goroutines go
+		select {
+		case h.gate <- scen.OkBeh(h.at, 200, 20, false, "application/json"):
+		default:
+		}
+	}
+	return map[string]any{"steps": steps, "unsettled": unsettled, "disturbed": disturbed}
+}
+
+func shuffleOps(r *vlib.Rng, l []lop) {
+	for i := len(l) - 1; i > 0; i-- {
+		j := r.Intn(i + 1)
+		l[i], l[j] = l[j], l[i]
+	}
+}
+
+// genLife: a history of `length` ops (roughly) for one stack.  Free-running stretches (any op after any op) alternate
+// with episodes in which several requests are in flight at once and their releases, the readmissions and further
+// requests come in a drawn order.
+func genLife(r *vlib.Rng, engine, bal string, n, length int) *lifeCase {
+	sc := &lifeCase{Engine: engine, Balancer: bal}
+	prios := []int{400, 300, 200, 100}[:n]
+	shuffled := append([]int{}, prios...)
+	for i := n - 1; i > 0; i-- {
+		j := r.Intn(i + 1)
+		shuffled[i], shuffled[j] = shuffled[j], shuffled[i]
+	}
+	for i := 0; i < n; i++ {
+		sc.Names = append(sc.Names, []string{"A", "B", "C", "D"}[i])
+		if bal == "priority" {
+			sc.Prios = append(sc.Prios, shuffled[i])
+		} else {
+			sc.Prios = append(sc.Prios, 100)
+		}
+	}
+	shape := func(op string) lop {
+		return lop{Op: op, Path: r.Intn(len(lifePaths)), Pad: vlib.Pick(r, []int{0, 0, 0, 300, 5000, 70000}), CT: r.Intn(len(lifeCTs))}
+	}
+	how := func() string { return vlib.Pick(r, []string{"fail", "fail", "fail", "fail", "ok", "ok", "close"}) }
+	readmit := func() lop {
+		switch r.Intn(4) {
+		case 0:
+			return lop{Op: "set", E: vlib.Pick(r, sc.Names), S: "healthy"}
+		case 1:
+			due := []string{}
+			for _, n := range sc.Names {
+				if r.Chance(2, 3) {
+					due = append(due, n)
+				}
+			}
+			if len(due) == 0 {
+				due = []string{vlib.Pick(r, sc.Names)}
+			}
+			return lop{Op: "tick", Due: due}
+		default:
+			return lop{Op: "check"}
+		}
+	}
+	out := 0 // requests believed to be in flight
+	brokenG, sickG := map[string]bool{}, map[string]bool{}
+	for len(sc.Ops) < length {
+		if r.Chance(1, 6) {
+			h := 2 + r.Intn(2)
+			for i := out; i < h; i++ {
+				sc.Ops = append(sc.Ops, shape("hold"))
+				out++
+			}
+			var ep []lop
+			for i := 0; i < out; i++ {
+				ep = append(ep, lop{Op: "release", K: r.Intn(3), How: how()})
+			}
+			for i := 1 + r.Intn(2); i > 0; i-- {
+				ep = append(ep, readmit())
+			}
+			for i := 1 + r.Intn(3); i > 0; i-- {
+				ep = append(ep, shape("req"))
+			}
+			shuffleOps(r, ep)
+			sc.Ops = append(sc.Ops, ep...)
+			out = r.Intn(out + 1) // some are done by now; the runner skips a release of nothing and a hold above its limit
+			continue
+		}
+		e := vlib.Pick(r, sc.Names)
+		switch x := r.Intn(20); {
+		case x < 5:
+			sc.Ops = append(sc.Ops, shape("req"))
+		case x < 8:
+			if out < 3 {
+				out++
+				sc.Ops = append(sc.Ops, shape("hold"))
+			}
+		case x < 12:
+			if out > 0 {
+				o := lop{Op: "release", K: r.Intn(3), How: how()}
+				if o.How != "fail" || r.Chance(1, 2) { // a request that failed over may have run out of candidates
+					out--
+				}
+				sc.Ops = append(sc.Ops, o)
+			}
+		case x < 14:
+			sc.Ops = append(sc.Ops, readmit())
+		case x < 17:
+			sc.Ops = append(sc.Ops, lop{Op: "set", E: e, S: vlib.Pick(r, statuses)})
+		case x < 18 && r.Chance(1, 3):
+			sc.Ops = append(sc.Ops, lop{Op: "sweep"})
+		case x < 18:
+			if brokenG[e] {
+				sc.Ops = append(sc.Ops, lop{Op: "mend", E: e})
+			} else {
+				sc.Ops = append(sc.Ops, lop{Op: "break", E: e, Kind: vlib.Pick(r, []string{"reset0", "reset0", "close0"})})
+			}
+			brokenG[e] = !brokenG[e]
+		default:
+			if sickG[e] {
+				sc.Ops = append(sc.Ops, lop{Op: "well", E: e})
+			} else {
+				sc.Ops = append(sc.Ops, lop{Op: "sick", E: e})
+			}
+			sickG[e] = !sickG[e]
+		}
+	}
+	sc.Ops = append(sc.Ops, lop{Op: "check"}, shape("req"))
+	return sc
+}
+
+// the corner history of the class: two requests hold the same (old) reading of an endpoint; the first one's attempt
+// fails, a real check readmits the endpoint, the second one's attempt fails: the failure is the newer fact
+func cornerLives() []*lifeCase {
+	var out []*lifeCase
+	for _, engine := range []string{"sherpa", "olla"} {
+		for _, bal := range balancers {
+			p := []int{300, 200}
+			if bal != "priority" {
+				p = []int{100, 100}
+			}
+			out = append(out, &lifeCase{Engine: engine, Balancer: bal, Names: []string{"A", "B"}, Prios: p, Ops: []lop{
+				{Op: "req"}, {Op: "hold"}, {Op: "hold"}, {Op: "hold"}, {Op: "release", K: 0, How: "fail"}, {Op: "check"}, {Op: "release", K: 1, How: "fail"},
+				{Op: "req"}, {Op: "req"}, {Op: "release", K: 0, How: "fail"}, {Op: "tick", Due: []string{"A", "B"}}, {Op: "release", K: 0, How: "fail"}, {Op: "req"}, {Op: "req"},
+				{Op: "release", K: 0, How: "ok"}, {Op: "release", K: 0, How: "ok"}, {Op: "req"}}})
+		}
+	}
+	return out
+}
+
 // ---------------------------------------------------------------- race
 
 type write struct {
@@ -642,6 +1160,10 @@ func main() {
 			var sc stackCase
 			json.Unmarshal(rep.FailingCase["scenario"], &sc)
 			c.Emit(map[string]any{"kind": "stack", "scenario": sc, "impl": runStack(&sc)})
+		case "life":
+			var sc lifeCase
+			json.Unmarshal(rep.FailingCase["scenario"], &sc)
+			c.Emit(map[string]any{"kind": "life", "scenario": sc, "impl": runLife(&sc)})
 		default:
 			var p struct{ Engine, Balancer string }
 			json.Unmarshal(rep.FailingCase["scenario"], &p)
@@ -718,6 +1240,32 @@ func main() {
 		c.Count("stack." + sc.Engine + "." + sc.Balancer)
 		c.Emit(map[string]any{"kind": "stack", "scenario": sc, "impl": out[i]})
 	}
+	// long-lived stacks: requests in flight while the status writers (real checks, failures, writes) run
+	lives := cornerLives()
+	nl, ll := 6, 80
+	if thorough {
+		nl, ll = 10, 220
+	}
+	for _, engine := range []string{"sherpa", "olla"} {
+		for _, bal := range balancers {
+			for i := 0; i < nl; i++ {
+				lc := genLife(r, engine, bal, 2+r.Intn(3), ll+r.Intn(ll/2))
+				switch i % 4 {
+				case 1:
+					lc.Strategy = "discovery-all"
+				case 3:
+					lc.Strategy = "optimistic-all"
+				}
+				lives = append(lives, lc)
+			}
+		}
+	}
+	lout := make([]map[string]any, len(lives))
+	scen.ParallelMap(len(lives), 12, func(i int) { lout[i] = runLife(lives[i]) })
+	for i, lc := range lives {
+		c.Count("life." + lc.Engine + "." + lc.Balancer)
+		c.Emit(map[string]any{"kind": "life", "scenario": lc, "impl": lout[i]})
+	}
 	// concurrent writers + senders
 	dur := 700 * time.Millisecond
 	if thorough {
@@ -741,5 +1289,5 @@ func main() {
 		c.Emit(map[string]any{"kind": "race", "scenario": map[string]any{"engine": x.engine, "balancer": x.bal}, "impl": rout[i]})
 	}
 	c.Close(map[string]any{"exhaustive": true,
-		"exhaustive_note": "table: all 6^n status assignments x 1/3/4/4 priority patterns for n = 1..4 endpoints on the real repository + three real selectors (exhaustive); op histories, stack histories and concurrent writer/sender runs are sampled"})
+		"exhaustive_note": "table: all 6^n status assignments x 1/3/4/4 priority patterns for n = 1..4 endpoints on the real repository + three real selectors (exhaustive); op histories, stack histories, long-lived stack histories with requests in flight and concurrent writer/sender runs are sampled"})
 }
